@@ -178,7 +178,8 @@ def main():
             _orig_start(self)
             time.sleep(case['slow_start'])
         _mpp.BaseProcess.start = _slow_start
-    cfg = CompareExecutionConfig(keep_results_in_comparison=case.get('keep', False), compare_in_dedicated_process=case['dedicated'],
+    cfg = CompareExecutionConfig(keep_results_in_comparison=case.get('keep', False),
+                                 compare_in_dedicated_process=case['dedicated'] and not case.get('flip_mode'),
                                  compare_process_recycle_rate=case.get('recycle', 5), compare_process_timeout=timeout)
     # ---- observation wrappers (harness side, nothing in the repository; class level so that an Equalizer built by the studio is seen too)
     pids = []
@@ -235,6 +236,17 @@ def main():
     error = None
     consume = case.get('consume', 'full')
     gen = run_comparison()
+    if case.get('consume_in_fork'):
+        # the comparison is prepared in one process and consumed in a process forked from it (one forked consumer per category)
+        sys.stdout.flush()
+        child = os.fork()
+        if child != 0:
+            os.waitpid(child, 0)
+            os._exit(0)
+    if case.get('flip_mode'):
+        # the execution mode is a live setting of the (shared) configuration object: it is switched to the dedicated process after the
+        # equalizer(s) were built and before the comparison is consumed
+        cfg.compare_in_dedicated_process = True
     if hang_flag:
         import threading
 
